@@ -10,6 +10,7 @@ import VsgProofs.Lemmas.BaseBindEffects
 import VsgProofs.Lemmas.PostPhase1
 import VsgProofs.Lemmas.BaseCaseTok
 import VsgProofs.Lemmas.BaseStructDispatch
+import VsgProofs.Lemmas.BFull2Indent   -- wp2_bfull2
 namespace Vsgm.C07
 open Vsgm
 
@@ -271,5 +272,50 @@ theorem bfix_parens_insert_crSeq (E : Base.Env) (params action : Base.KV) (old n
   simp [crSeq, Tok.isCr, Base.Env.inst, hko, hkc]
 
 /-! ### END ag_bstruct -/
+
+/-! ### BEGIN wp2_bfull2 (indent family, whole rule) -/
+
+section wp2_bfull2
+open BFull2
+
+/-- **whole-rule line count of `token_indent` (93 rules)**: for every token list (no pseudo tokens; tokens whose
+    id is `parser.whitespace` have kind `ws`), indent assignment, `indent_size` and both documented styles the file
+    after `Rule.fix` has exactly the line breaks of the file before — no line is added, removed or joined -/
+theorem bfull2_indent_lineCount (uid : Tok → Option TM.Key) (P : Params) (ind : Oracle) (f : List Tok)
+    (hv : P.variant = .plain) (hcs : CsOk P.cs) (hs : StyleOk P)
+    (hb : ∀ t ∈ f, t.isBof = false) (hk : ∀ t ∈ f, isWsU uid t = true → t.kind = .ws) :
+    crSeq (fixAll uid P ind f) = crSeq f :=
+  fixAll_hom uid P ind crSeq crSeq_append (by intro t ht; simp [crSeq, Tok.isCr, ht]) hv hcs hs f hb hk
+
+/-- **the fix is confined to the reported regions**: the file after `Rule.fix` is the concatenation of the new
+    texts of consecutive pieces of the file, and a piece the rule did not report is unchanged (so a line the rule
+    did not report keeps its tokens; with `bfull2_indent_lineCount` no line moves) -/
+theorem bfull2_indent_pieces (uid : Tok → Option TM.Key) (P : Params) (ind : Oracle) (f : List Tok)
+    (hv : P.variant = .plain) (hcs : CsOk P.cs) (hs : StyleOk P) (hb : ∀ t ∈ f, t.isBof = false) :
+    ∃ ps : List (Piece Tok), olds ps = f ∧ news ps = fixAll uid P ind f ∧
+      (∀ p ∈ ps, p.hit = false → p.new = p.old) ∧
+      (ps.filter (·.hit)).length = ((sem uid P ind).analyze f).length := by
+  refine ⟨(units uid P ind [] f).map (toPiece P), units_olds' uid P ind [] f,
+    (fixAll_eq_news uid P ind hv hcs hs f hb).symm, units_hit uid P ind [] f, ?_⟩
+  rw [analyze_eq_scanA uid P ind hv hcs hs f, scanA_units uid P ind hcs [] f (crWs_nil uid)]
+  generalize units uid P ind [] f = us
+  induction us with
+  | nil => rfl
+  | cons u r ih =>
+    obtain ⟨o, v⟩ := u
+    cases v with
+    | none => simpa [toPiece] using ih
+    | some v => simp only [List.map_cons, toPiece, List.filter_cons, if_true, List.length_cons, List.filterMap_cons]; rw [ih]
+
+/-- non-vacuity: a line whose indent is wrong is rewritten in place, the line break stays -/
+example :
+    let f : List Tok := [⟨9, .code, "a".toList⟩, ⟨1, .cr, []⟩, ⟨2, .ws, " ".toList⟩, ⟨3, .code, "signal".toList⟩]
+    crSeq (fixAll toyUid toyP (fun _ => some 1) f) = crSeq f ∧ fixAll toyUid toyP (fun _ => some 1) f ≠ f := by
+  decide +kernel
+
+end wp2_bfull2
+
+/-! ### END wp2_bfull2 -/
+
 
 end Vsgm.C07
